@@ -453,7 +453,10 @@ def beginAutoPing (s : S) : S :=
 def sendAutoPing (s : S) : S :=
   let s := beginAutoPing s
   let s := sendPing s (s.pingPending.getD [])
-  if s.cfg.pingTimeout > 0 then armPingTimeout s else s
+  if s.cfg.pingTimeout > 0 then armPingTimeout s
+  -- no pong timeout configured: the next ping does not wait for this one to be answered
+  else if s.cfg.pingInterval > 0 && s.st = .opened then armPingNext s
+  else s
 
 /-- `_cancelAutoPingTimeoutCall` -/
 def cancelAutoPingTimeout (s : S) : S :=
@@ -521,7 +524,7 @@ def onPongFrame (s : S) (payload : Bytes) : S :=
   | some pp =>
     if payload = pp then
       let s := { s with tPingTimeout := none, pingPending := none }
-      if s.cfg.pingInterval > 0 then armPingNext s else s
+      if s.cfg.pingInterval > 0 && s.tPingNext.isNone then armPingNext s else s
     else s
   | none => s
 
